@@ -359,6 +359,21 @@ fixedArrayFromBuffer (PyObject *obj)
         throw std::invalid_argument ("Unsupported buffer type");
     }
 
+    // The buffer must hold exactly shape[0] contiguous elements of this
+    // array's element type: same atomic format, same number of bytes.
+    typedef typename ArrayT::BaseType T;
+    const char *format = view.format;
+    if (format[0] == '@' || format[0] == '<')
+        ++format;
+    if (view.ndim < 1 || !view.shape || view.shape[0] < 0 ||
+        format[0] != PyFormat<T>()[0] || format[1] != '\0' ||
+        view.len != view.shape[0] * Py_ssize_t (sizeof (T)) ||
+        !PyBuffer_IsContiguous (&view, 'C'))
+    {
+        PyBuffer_Release(&view);
+        throw std::invalid_argument ("Buffer does not match the array's element type or size");
+    }
+
     ArrayT *array = new ArrayT (view.shape[0], PyImath::UNINITIALIZED);
     memcpy (reinterpret_cast<void*>(&array->direct_index(0)), view.buf, view.len);
     PyBuffer_Release(&view);
